@@ -648,6 +648,8 @@ pub fn drive_main<P: Property>(p: &P, args: &Args) -> i32 {
         Mode::Workers => args.jobs.max(1),
     };
     let mut shrink_worker: Option<WorkerProc> = None;
+    // developer knob: how many distinct violations to collect before stopping
+    let max_viol: usize = std::env::var("VERIF_MAX_VIOL").ok().and_then(|s| s.parse().ok()).unwrap_or(3);
 
     // regression replays for fixed findings and pinned replays for known findings
     let mut known_lines: Vec<String> = vec![];
@@ -771,7 +773,7 @@ pub fn drive_main<P: Property>(p: &P, args: &Args) -> i32 {
                     *stats.known_hits.entry(o.sig.clone()).or_insert(0) += 1;
                     continue;
                 }
-                if seen_viol_sigs.contains(&o.sig) || violations.len() >= 5 {
+                if seen_viol_sigs.contains(&o.sig) || violations.len() >= max_viol.max(5) {
                     continue;
                 }
                 // shrink (only generated cases have a tree)
@@ -792,7 +794,7 @@ pub fn drive_main<P: Property>(p: &P, args: &Args) -> i32 {
                 let path = write_replay(p, &best_case, &best_o, args.seed, "shrunk failing case");
                 eprintln!("violation: sig={} detail={}", best_o.sig, crate::util::truncate(&best_o.detail.to_string(), 1500));
                 violations.push((best_o.sig.clone(), path));
-                if violations.len() >= 3 {
+                if violations.len() >= max_viol {
                     stop = true;
                 }
             }
